@@ -42,7 +42,22 @@ def gen(rng, tier):
                 ops.append({"k": k, "num": num, "den": den, "discard": rng.random() < 0.5, "warn": rng.random() < 0.3})
         if rng.random() < 0.15:
             ops = [{"k": "missing", "discard": False}, {"k": "biallelic", "discard": False}, {"k": "phase"}]  # what load() does
-        yield {"cls": cls, "g": {"samples": [f"s{i}" for i in range(ns)], "vars": [f"v{j}" for j in range(nv)], "data": data, "anc": anc, "hasPhase": True, "isBool": False, "ancestryClass": cls == "GenotypesAncestry"}, "ops": ops}
+        names = [f"v{j}" for j in range(nv)]
+        if rng.random() < (0.5 if cls == "GenotypesAncestry" else 0.2) and nv > 1:
+            # variant IDs need not be unique: split multi-allelic sites keep their rsID, unnamed variants are all "."
+            names = [rng.choice(["rsB", ".", f"v{j}"]) for j in range(nv)]
+        if rng.random() < 0.04:
+            # many samples of which only a handful are complete: what stays must stay in the order of the file
+            ns = rng.randint(18, 64)
+            keep = set(rng.sample(range(ns), rng.randint(2, 7)))
+            data = [[[rng.choice([0, 1]), rng.choice([0, 1]), 1] for _ in range(nv)] for _ in range(ns)]
+            for i in range(ns):
+                if i not in keep:
+                    data[i][rng.randrange(nv)][rng.randrange(2)] = 255
+            if anc is not None:
+                anc = [[[rng.randint(0, 2), rng.randint(0, 2)] for _ in range(nv)] for _ in range(ns)]
+            ops = [{"k": "missing", "discard": True}] + ops[:1]
+        yield {"cls": cls, "g": {"samples": [f"s{i}" for i in range(ns)], "vars": names, "data": data, "anc": anc, "hasPhase": True, "isBool": False, "ancestryClass": cls == "GenotypesAncestry"}, "ops": ops}
 
 
 def build(case):
@@ -80,14 +95,14 @@ def snapshot(g, orig_samples, orig_vars):
     return {"samples": list(map(str, g.samples)), "vars": [str(v) for v in g.variants["id"]], "data": data, "anc": anc, "hasPhase": bool(has_phase), "isBool": bool(d.dtype == np.bool_)}
 
 
-MSG = re.compile(r"ID (\S+) at POS \S+:\d+ .* for sample (\S+)$|ID (\S+) at POS \S+:\d+ has MAF")
+MSG = re.compile(r"ID (\S+) at POS \S+:(\d+) .* for sample (\S+)$|ID (\S+) at POS \S+:(\d+) has MAF")
 
 
 def impl(case):
     g = build(case)
     trace = []
     for o in case["ops"]:
-        samples_before, vars_before = list(g.samples), [str(v) for v in g.variants["id"]]
+        samples_before, vars_before = list(g.samples), [(str(v), int(p)) for v, p in zip(g.variants["id"], g.variants["pos"])]  # IDs may repeat
         try:
             maf = None
             if o["k"] == "missing":
@@ -102,10 +117,10 @@ def impl(case):
             m = MSG.search(str(e))
             if not m:
                 trace.append({"raised": "unparsed:" + str(e)[:80]})
-            elif m.group(3):
-                trace.append({"raised": [0, vars_before.index(m.group(3))]})
+            elif m.group(4):
+                trace.append({"raised": [0, vars_before.index((m.group(4), int(m.group(5))))]})
             else:
-                trace.append({"raised": [samples_before.index(m.group(2)), vars_before.index(m.group(1))]})
+                trace.append({"raised": [samples_before.index(m.group(3)), vars_before.index((m.group(1), int(m.group(2))))]})
             break
         e = {"state": snapshot(g, None, None)}
         if maf is not None:
@@ -413,7 +428,7 @@ CHECK = Check(
             describe=describe,
             variants=variants,
             nontrivial=lambda c, o: C.jdump(c) if isinstance(o, dict) and any(("raised" in e) or (op.get("discard") and len(e["state"]["samples"]) * len(e["state"]["vars"]) < len(c["g"]["samples"]) * len(c["g"]["vars"])) for op, e in zip(c["ops"], o.get("trace", []))) else None,
-            rule="seeded random arrays up to 6x4 with allele indices from {0,1,2,253,254,255} (a mostly-valid stream and a dense-offender stream), all phase patterns, sequences of 1-4 checks in any order with discard / raise / warn modes, thresholds {0,1/8,1/4,3/8,1/2,1/3,1/10,1/6,1/5,1/12,3/10} (ties included, also at frequencies that are not exact in binary), the four classes in rotation (ancestry array in parallel); non-trivial = some step raised or discarded something",
+            rule="seeded random arrays up to 6x4 with allele indices from {0,1,2,253,254,255} (a mostly-valid stream and a dense-offender stream), all phase patterns, sequences of 1-4 checks in any order with discard / raise / warn modes, thresholds {0,1/8,1/4,3/8,1/2,1/3,1/10,1/6,1/5,1/12,3/10} (ties included, also at frequencies that are not exact in binary), the four classes in rotation (ancestry array in parallel); variant IDs repeated in a fifth of the cases (shared rsID, '.'); 18-64 samples of which 2-7 are complete; non-trivial = some step raised or discarded something",
         ),
         Section(
             name="default_loaders",
